@@ -96,22 +96,29 @@ def gen_case(rng, arm, tier, k=0):
         "fallback": rng.getrandbits(32),
     }
     if arm == "learn_bigval":
-        # two classes of almost equal size, most validation rows classified correctly
-        half = nv // 2
-        case["Yv"] = [0] * half + [1] * (nv - half)
-        for i in range(nv):
-            j = rng.randrange(nt)
-            case["Xv"][i] = list(case["Xt"][j])
-            if rng.random() < 0.97:
-                case["Yv"][i] = case["Yv"][i]
-        # labels of the training rows decide correctness: make row j's label the majority
-        for i in range(nv):
-            if rng.random() < 0.9:
-                j = rng.randrange(nt)
-                case["Xv"][i] = list(case["Xt"][j])
-                case["Yv"][i] = case["Yt"][j]
-        if set(case["Yv"]) != {0, 1}:
-            case["Yv"][0], case["Yv"][1] = 0, 1
+        # Two validation classes of sizes h and h+1 (h >= 300) and a training set on a line with the
+        # classes far apart.  One validation sample carries the label of the other side ("stray").
+        # Exchanging it with a non-prototype training row fixes that error and - depending on the
+        # row drawn - creates a single error in the *other* class: the accuracy moves by
+        # 1/(2h(h+1)), a few 1e-6.  Such an improvement is still an improvement.
+        h = rng.choice((300, 333, 401))
+        flip = rng.random() < 0.5  # which class is the larger one
+        g = rng.randint(6, 9)
+        left = [0.0, 1.0, 2.0]
+        right = [float(g + 4), float(g + 6)] + ([float(g + 7)] if rng.random() < 0.5 else [])
+        pad = [0.0] * (d - 1)
+        case["Xt"] = [[x] + pad for x in left + right]
+        case["Yt"] = [0] * len(left) + [1] * len(right)
+        stray_x = float(g + 5)  # inside the right-hand class, labelled as the left-hand class
+        n0, n1 = (h, h + 1) if not flip else (h + 1, h)
+        rows = [[0.0] + pad] * (n0 - 1) + [[stray_x] + pad] + [[float(g + 4)] + pad] * n1
+        labs = [0] * n0 + [1] * n1
+        order = list(range(len(rows)))
+        rng.shuffle(order)
+        case["Xv"] = [list(rows[o]) for o in order]
+        case["Yv"] = [labs[o] for o in order]
+        case["style"], case["metric"] = "lattice", metric
+        case["iters"] = rng.choice((2, 3, 5))
     elif rng.random() < 0.3:
         # validation rows near/equal to training rows: high accuracies, ties between iterations
         for i in range(nv):
@@ -123,6 +130,8 @@ def gen_case(rng, arm, tier, k=0):
         if sorted(set(case["Yv"])) != list(range(K)):
             case["Yv"] = gen_labels(rng, nv, K)
     draws = []
+    if arm == "learn_bigval" and rng.random() < 0.5:
+        draws = [["u", (len(case["Xt"]) - 1 + 0.5) / len(case["Xt"])]]
     if arm == "learn_adv":
         mode = rng.choice(("mixed", "mixed", "proto_heavy", "same", "boundary"))
         for _ in range(rng.randint(0, 40)):
@@ -512,7 +521,9 @@ def run_case(case):
                     best = max(a for a, _, _ in obs.snapshots)
                     final_state = subgraph_state(opf.subgraph, skip=("relevant",))
                     final = dig(final_state)
-                    ok = [i for i, (a, dg, _) in enumerate(obs.snapshots) if a == best]
+                    # accuracies that differ only by floating-point summation noise are a tie (the
+                    # smallest genuine step of the measure is ~1/(2K n^2) >> 1e-9 for these sizes)
+                    ok = [i for i, (a, dg, _) in enumerate(obs.snapshots) if a >= best - 1e-9]
                     if not any(obs.snapshots[i][1] == final for i in ok):
                         same = [i for i, (_, dg, _) in enumerate(obs.snapshots) if dg == final]
                         raise Stop(
